@@ -86,3 +86,79 @@ def rule_py_none_after_loop(rep, floor=10):
                         continue
                     r.fail(key, m.where(risky), "%s: %s uses `%s` as `%s` after a loop that may not have run (it is None then)" % (rel, fn.name, v, ast.unparse(risky)[:50]))
     return r.done()
+
+
+def rule_py_filtered_ordinal(rep, floor=1):
+    r = rep.rule("INDEX.py-filtered-ordinal", "where a function collects per-input data only for the inputs of some class (`for x in xs: if isinstance(x, T): L.append(..)`) and later walks the same inputs again to look that "
+                 "data up by ordinal, the ordinal counts the inputs of that class only (a manual counter advanced under the same isinstance test), not all inputs (`for i, x in enumerate(xs)`): "
+                 "with a non-T input in front, position and ordinal differ (`10 + union_array` looked up combo[\"1\"])", floor=floor)
+    n = 0
+    for rel in _mods():
+        m = pf.module(rel)
+        for fn in _funcs(m.tree):
+            # filtered builds: for x in XS: if isinstance(x, T): L.append(...)
+            builds = []
+            for lp in ast.walk(fn):
+                if not (isinstance(lp, ast.For) and isinstance(lp.iter, ast.Name) and isinstance(lp.target, ast.Name)):
+                    continue
+                for t in lp.body:
+                    if isinstance(t, ast.If) and isinstance(t.test, ast.Call) and isinstance(t.test.func, ast.Name) and t.test.func.id == "isinstance" and len(t.test.args) == 2 \
+                            and isinstance(t.test.args[0], ast.Name) and t.test.args[0].id == lp.target.id and any(isinstance(c, ast.Call) and isinstance(c.func, ast.Attribute) and c.func.attr == "append" for s in t.body for c in ast.walk(s)):
+                        builds.append((lp.iter.id, ast.dump(t.test.args[1])))
+            if not builds:
+                continue
+            # later walks of the same inputs under the same test that subscript by a counter
+            for lp in ast.walk(fn):
+                if not isinstance(lp, ast.For):
+                    continue
+                enum = isinstance(lp.iter, ast.Call) and isinstance(lp.iter.func, ast.Name) and lp.iter.func.id == "enumerate" and lp.iter.args and isinstance(lp.iter.args[0], ast.Name) \
+                    and isinstance(lp.target, ast.Tuple) and len(lp.target.elts) == 2 and all(isinstance(e, ast.Name) for e in lp.target.elts)
+                plain = isinstance(lp.iter, ast.Name) and isinstance(lp.target, ast.Name)
+                if not (enum or plain):
+                    continue
+                xs = lp.iter.args[0].id if enum else lp.iter.id
+                xv = lp.target.elts[1].id if enum else lp.target.id
+                for t in lp.body:
+                    if not (isinstance(t, ast.If) and isinstance(t.test, ast.Call) and isinstance(t.test.func, ast.Name) and t.test.func.id == "isinstance" and len(t.test.args) == 2
+                            and isinstance(t.test.args[0], ast.Name) and t.test.args[0].id == xv and (xs, ast.dump(t.test.args[1])) in builds):
+                        continue
+                    # ordinal-like subscripts in the guarded body: Y[i] / Y[str(i)] with i a bare name
+                    for sub in [s for b in t.body for s in ast.walk(b) if isinstance(s, ast.Subscript)]:
+                        ix = sub.slice
+                        if isinstance(ix, ast.Call) and isinstance(ix.func, ast.Name) and ix.func.id == "str" and ix.args:
+                            ix = ix.args[0]
+                        if not isinstance(ix, ast.Name):
+                            continue
+                        n += 1
+                        isenum = enum and ix.id == lp.target.elts[0].id
+                        r.check(not isenum, "%s:%s#%s[%s]" % (rel, fn.name, ast.unparse(sub.value)[:20], ix.id), m.where(sub),
+                                "%s: %s looks `%s` up by the position of the input among ALL inputs (enumerate) although the data were collected for inputs of that class only" % (rel, fn.name, ast.unparse(sub)[:40]),
+                                detail="ordinal among the filtered inputs")
+    if n < 1:
+        raise AnalysisError("no ordinal look-up of filtered per-input data found (the union arm of broadcast_and_apply has one)")
+    return r.done()
+
+
+def rule_py_slice_consumed(rep, floor=1):
+    r = rep.rule("ITEM.py-range-consumed", "where a first-dimension slice has been applied through `X.getitem_range(head.start, head.stop, head.step)`, the pieces it returns are indexed further with `slice(None)` in its "
+                 "place: using `head` itself again in the same arm applies the range twice (pa[1:, 0] dropped a row of every partition)", floor=floor)
+    n = 0
+    for rel in _mods():
+        m = pf.module(rel)
+        for fn in _funcs(m.tree):
+            for arm in [a for a in ast.walk(fn) if isinstance(a, ast.If)]:
+                for body in (arm.body,):
+                    calls = [c for s in body for c in ast.walk(s) if isinstance(c, ast.Call) and isinstance(c.func, ast.Attribute) and c.func.attr == "getitem_range" and len(c.args) >= 2
+                             and all(isinstance(a, ast.Attribute) and isinstance(a.value, ast.Name) for a in c.args[:2]) and len({a.value.id for a in c.args if isinstance(a, ast.Attribute)}) == 1
+                             and [a.attr for a in c.args[:2]] == ["start", "stop"]]
+                    if not calls:
+                        continue
+                    h = calls[0].args[0].value.id
+                    n += 1
+                    again = [x for s in body for x in ast.walk(s) if isinstance(x, ast.Name) and x.id == h and isinstance(x.ctx, ast.Load)
+                             and not (isinstance(getattr(x, "_parent", None), ast.Attribute) and x._parent.attr in ("start", "stop", "step"))]
+                    r.check(not again, "%s:%s#%s" % (rel, fn.name, h), m.where(again[0]) if again else m.where(calls[0]),
+                            "%s: %s applies the range `%s` through getitem_range and then uses `%s` again in the same arm" % (rel, fn.name, h, h), detail="range applied once")
+    if n < 1:
+        raise AnalysisError("no getitem_range(head.start, head.stop, ...) arm found")
+    return r.done()
